@@ -62,19 +62,13 @@ pub fn vx_position<B: PartialEq>(values: &Vec<B>, y: B) -> (r: Option<usize>)
 POSITION_RW = ('R-outline', r'values\.iter\(\)\.position\(\|z\| \*z == y\)', 'vx_position(values, y)')
 
 
-def build():
-    u = Unit('u_map', serves=['C01', 'C02', 'C03'])
-    u.use('use std::marker::PhantomData;')
-    u.use('use std::collections::BTreeMap;')
-    common.target64(u)
-    common.std_specs(u)
-    common.handle_trait(u, P)
-    u.trusted_text(VX_POSITION, 'external_body vx_position: std Iterator::position semantics + structural == on handles (R-outline)')
-
+def emit_relationmap(u, P, with_canary=True):
+    """struct RelationMap + insert/remove/remove_all/get/len under contract (needs vx_position, Handle, std specs)"""
     # ------------------------------------------------------------------ RelationMap
     u.item('src/store.rs', 'struct', 'RelationMap', rewrites=[('R-vis', r'\b_marker:', 'pub _marker:')])
     u.spec(SPEC, 'contracts/u_map.py:SPEC')
-    u.canary('canary_u_map', '''
+    if with_canary:
+      u.canary('canary_u_map', '''
 /// vacuity guard: false by one token (removing the first y from [y, y] does not give the empty sequence); must FAIL
 pub proof fn canary_u_map(y: int)
     ensures is_remove_first(seq![y, y], Seq::<int>::empty(), y),
@@ -116,6 +110,18 @@ pub proof fn canary_u_map(y: int)
         Fn('len', props=P, ret='r', ensures=[('len', 'r == self@.len()')]),
     ])
 
+
+
+def build():
+    u = Unit('u_map', serves=['C01', 'C02', 'C03'])
+    u.use('use std::marker::PhantomData;')
+    u.use('use std::collections::BTreeMap;')
+    common.target64(u)
+    common.std_specs(u)
+    common.handle_trait(u, P)
+    u.trusted_text(VX_POSITION, 'external_body vx_position: std Iterator::position semantics + structural == on handles (R-outline)')
+
+    emit_relationmap(u, P)
     # ------------------------------------------------------------------ RelationBTreeMap
     CMP = ('cmp_laws', 'vstd::laws_cmp::obeys_cmp::<A>()')
     u.item('src/store.rs', 'struct', 'RelationBTreeMap')
